@@ -1,5 +1,6 @@
 import Driver.Util
 import SaModel.Codec.Time
+import SaModel.Spec.Calendar
 /-
 suite `temporal` (C14): one column, independent steps (write a string / an integer, read an integer as
 string / integer).  Per step
@@ -8,7 +9,11 @@ string / integer).  Per step
   * the specification predicate is evaluated on the implementation's output with independent means: the
     typed values of the chrono and jiff oracles (unit arithmetic done here, by floor division of total
     nanoseconds), and for spans a separate ISO-8601 duration reader (`specSpan`) that works on exact
-    rationals.
+    rationals;
+  * calendar probes (`cal` steps): chrono's TYPED calendar (validity, leap year, successor, predecessor, day
+    difference to the epoch) and the stored integers of the date and of its successor against the independent
+    calendar `SaModel/Spec/Calendar.lean` (`valid`, `isLeap`, `nextDay`, `prevDay`, `dayNumber` by counting) — the
+    definitions `Props/C14Cal.lean` proves the model's closed formula equal to.
 -/
 namespace Driver.Suites.Temporal
 open Lean Driver SaModel SaModel.Codec
@@ -389,13 +394,107 @@ def stepReadInt (c : Col) (as32 : Bool) (x : Int) (r : Json) : StepV := Id.run d
   | "err", _ => return v
   | _, _ => return { v with agree := false, spec := "na", what := "harness", why := s!"unexpected outcome {out.compress}" }
 
+/-! ### calendar probes -/
+
+def jsonYmd? (j : Json) : Option (Int × Int × Int) :=
+  match j with
+  | .arr a =>
+    match a.toList.map (fun x => (jsonInt? x).toOption) with
+    | [some y, some m, some d] => some (y, m, d)
+    | _ => none
+  | _ => none
+
+def optInt (r : Json) (k : String) : Option Int :=
+  match r.getObjVal? k with
+  | .ok j => (jsonInt? j).toOption
+  | _ => none
+
+/-- the day number of the specification: by counting where the recursion is shallow, otherwise the closed formula
+(proved equal: `Props/C14Cal.lean: daysFromCivil_is_count`) -/
+def specDayNumber (y m d : Int) : Int :=
+  if -3000 ≤ y ∧ y ≤ 7000 then Spec.Calendar.dayNumber (y, m, d) else daysFromCivil y m d
+
+def stepCal (c : Col) (y m d : Int) (r : Json) : StepV := Id.run do
+  let inYears := chronoMinYear ≤ y && y ≤ chronoMaxYear
+  let expValid := Spec.Calendar.valid (y, m, d) && inYears
+  let mut v : StepV := { tags := [s!"cal/{if expValid then "valid" else "invalid"}"] }
+  if (r.getObjVal? "oracle_panic").isOk then
+    return { v with agree := false, spec := "fail", what := "oracle-panic", why := s!"chrono panics on {y}-{m}-{d}" }
+  let chValid := (r.getObjValAs? Bool "valid").toOption.getD false
+  -- the model's calendar
+  if (validDate y m d && inYears) != chValid then
+    v := { v with agree := false, what := "model-valid", why := s!"{y}-{m}-{d}: model validDate {validDate y m d}, chrono {chValid}" }
+  if chValid != expValid then
+    return { v with spec := "fail", what := "valid", why := s!"{y}-{m}-{d}: chrono from_ymd_opt {chValid}, the calendar says {expValid}" }
+  match (r.getObjValAs? Bool "leap").toOption with
+  | some l =>
+    if l != Spec.Calendar.isLeap y then
+      return { v with spec := "fail", what := "leap", why := s!"year {y}: chrono leap_year {l}, Gregorian rule {Spec.Calendar.isLeap y}" }
+  | none => pure ()
+  if !expValid then return v
+  let n := specDayNumber y m d
+  let fac : Int := match c.ty with | .date ty => ty.factor | _ => 1
+  if m == 2 && d ≥ 28 then v := { v with tags := "cal/feb-end" :: v.tags }
+  if d == Spec.Calendar.monthLength y m then v := { v with tags := (if m == 12 then "cal/year-end" else "cal/month-end") :: v.tags }
+  if y < 0 then v := { v with tags := "cal/negative-year" :: v.tags }
+  match optInt r "days" with
+  | some days =>
+    if daysFromCivil y m d != days then
+      v := { v with agree := false, what := "model-days", why := s!"{y}-{m}-{d}: model daysFromCivil {daysFromCivil y m d}, chrono {days}" }
+    if days != n then
+      return { v with spec := "fail", what := "day-number", why := s!"{y}-{m}-{d}: chrono counts {days} days since 1970-01-01, the calendar {n}" }
+  | none => return { v with agree := false, spec := "na", what := "harness", why := "cal step without days" }
+  -- successor / predecessor
+  let nx := Spec.Calendar.nextDay (y, m, d)
+  let pv := Spec.Calendar.prevDay (y, m, d)
+  let expSucc : Option (Int × Int × Int) := if nx.1 ≤ chronoMaxYear then some nx else none
+  let expPred : Option (Int × Int × Int) := if chronoMinYear ≤ pv.1 then some pv else none
+  let chSucc := (r.getObjVal? "succ").toOption.bind jsonYmd?
+  let chPred := (r.getObjVal? "pred").toOption.bind jsonYmd?
+  if chSucc != expSucc then
+    return { v with spec := "fail", what := "succ", why := s!"{y}-{m}-{d}: chrono succ_opt {chSucc}, nextDay {expSucc}" }
+  if chPred != expPred then
+    return { v with spec := "fail", what := "pred", why := s!"{y}-{m}-{d}: chrono pred_opt {chPred}, prevDay {expPred}" }
+  if expSucc.isSome && optInt r "succ_days" != some (n + 1) then
+    return { v with spec := "fail", what := "succ-days", why := s!"{y}-{m}-{d}: the successor is {optInt r "succ_days"} days after the epoch, expected {n + 1}" }
+  if expPred.isSome && optInt r "pred_days" != some (n - 1) then
+    return { v with spec := "fail", what := "pred-days", why := s!"{y}-{m}-{d}: the predecessor is {optInt r "pred_days"} days after the epoch, expected {n - 1}" }
+  -- through the column: the date and its successor as strings
+  let through (key skey : String) (expect : Int) (v : StepV) : StepV := Id.run do
+    let out := (r.getObjVal? key).toOption.getD Json.null
+    let s := (getStr r skey).toOption.getD ""
+    let cls := implCls out
+    let model := modelWriteStr c s
+    let mut v := v
+    if cls == "panic" then
+      return { v with agree := model.cls == "panic", spec := "fail", what := s!"{key}/panic", panic := true, why := s!"write {s.quote}: panic" }
+    if model.cls != cls then
+      v := { v with agree := false, what := s!"{key}/class/model={model.cls}/impl={cls}", why := s!"write {s.quote}: model {model.cls}, impl {out.compress}" }
+    match outInt out with
+    | some x =>
+      if let .ok mv := model then
+        if mv != x then v := { v with agree := false, what := s!"{key}/model-value", why := s!"write {s.quote}: model {mv}, impl {x}" }
+      if x != expect * fac then
+        return { v with spec := "fail", what := s!"{key}/stored", why := s!"write {s.quote}: stored {x}, the day number is {expect} (factor {fac})" }
+      return v
+    | none => return { v with spec := "fail", what := s!"{key}/rejected-valid", why := s!"write {s.quote}: {out.compress}" }
+  v := through "out" "s" n v
+  if v.spec == "fail" then return v
+  if expSucc.isSome then v := through "out_succ" "s_succ" (n + 1) v
+  return v
+
 def stepName (st : Json) : String :=
+  if (st.getObjVal? "cal").isOk then "cal" else
   match getStr st "w", getStr st "r" with
   | .ok k, _ => if k == "str" then "w-str" else "w-int"
   | _, .ok k => if k == "str" then "r-str" else "r-int"
   | _, _ => "?"
 
 def evalStep (c : Col) (st r : Json) : Except String StepV := do
+  if let .ok cal := st.getObjVal? "cal" then
+    match jsonYmd? cal with
+    | some (y, m, d) => return stepCal c y m d r
+    | none => throw "cal step without [y, m, d]"
   match getStr st "w", getStr st "r" with
   | .ok "str", _ => pure (stepWriteStr c (← getStr st "v") r)
   | .ok k, _ =>
